@@ -21,6 +21,12 @@ equivalent *by the language*, not by Tornado: ``raise gen.Return(v)`` is rendere
 enclosing try has ``except Exception`` (Return is an Exception); ContextVar *writes* happen in main and in
 decorated subs only (a decorated sub gets a context copy at the call under both forms of main; a native sub
 is wrapped in a Task = copy by the generator form but shares the task's context under ``await native_sub()``).
+Third rendering (only for programs without list/dict awaits that contain sub-coroutines, i.e. one sequential flow):
+``async def`` where every list/dict of futures is awaited member by member - ``yield [a, b]`` is documented as
+equivalent to that - compared with the generator form on final state and emit sequence, ignoring *when* (step
+markers), since multi waits for all children before raising.  multi()'s "all others will be logged" is checked by
+counting the 'Multiple exceptions in yield list' records.  Enumerated ``multifam`` family: lists/dicts with >= 2
+failing children resolved in every order.
 Absolute context clauses on top of the differential: right after the call and at the end the *caller* still
 reads its own value (the coroutine's set() never leaks out); in the enumerated ``ctxfam`` family [await a done
 future; set; read; await a pending future; read (; reset)] - in main, in a decorated sub, and decorated-in-
@@ -46,6 +52,13 @@ Sensitivity (quick tier, seed 1, one textual mutation at a time on a scratch cop
     all 96 cases of the enumerated `ctxfam` family fail (main: C37.trace_differs / coroutine_context_leaked_into_caller;
     decorated sub and decorated-in-decorated: C37.context_value_lost_or_leaked, an absolute clause because the sub is the
     same object in both forms of main).  Earlier version: only found by the random part at some seeds.
+  * multi_future fails the combined future as soon as ANY child fails (exception of the first child to COMPLETE with a
+    failure instead of the first in list/dict order)                                    -> caught at seeds 1-3: all 272 cases of
+    the enumerated `multifam` family fail (C37.differs_from_sequential_awaits / C37.multi_wrong_child_exception when a
+    later-listed child fails first, C37.multi_other_failures_logging otherwise).  Earlier version: blind, because the
+    async-def form went through the same gen.multi; the generator form is now also compared with a reference rendering
+    that awaits list/dict members one after the other (the documented equivalent), and the "all other failures are
+    logged" sentence of the multi() docstring is checked by count.
   DESIGN's "fast path returning before finally runs" has no small textual equivalent (the generator itself runs the
   finally); the two fast-path mutants above stand in for it.
 """
@@ -64,7 +77,7 @@ from vlib.loopkit import Logs, norm
 PROPERTY = "C37"
 READY = True
 RULE = (
-    "enumerated ctxfam family (96 context-propagation programs x 2 schedules) + Hypothesis generates (program AST, 1-4 schedules); program: <=6 top-level statements, nesting depth <=3, "
+    "enumerated ctxfam family (96 context-propagation programs x 2 schedules) + enumerated multifam family (272: list/dict of 2-3 futures, >=2 failing, every completion order) + Hypothesis generates (program AST, 1-4 schedules); program: <=6 top-level statements, nesting depth <=3, "
     "<=2 subs (native/decorated), <=4 futures; schedule: per-future outcome (int result / an exception instance or "
     "class handed over as a plain result value / failure ErrA, ErrB), already-done "
     "flags, ordered completion groups; thorough adds all singleton-step permutations of the first schedule. "
@@ -122,6 +135,7 @@ class Render:
         self.prog = prog
         self.lines = []
         self.has_await = False
+        self.sequential = False
 
     def expr(self, e, style):
         k = e[0]
@@ -169,6 +183,24 @@ class Render:
                 if e[0] in ("list", "dict"):
                     e = (e[0], [m for m in e[1] if m[0] == "fut" or m[1] < maxsub])
                 kw = "yield" if style == "gen" else "await"
+                if e[0] in ("list", "dict"):
+                    pure = all(m[0] == "fut" for m in e[1])
+                    out.append(pad + "emit(('multi', %r))" % (tuple(m[1] for m in e[1]) if pure else None,))
+                    if pure and style == "native" and self.sequential:
+                        # reference rendering: the documented equivalent of yielding a list / dict of futures,
+                        # "results = []; for f in list_of_futures: results.append(yield f)"
+                        if e[0] == "list":
+                            out.append(pad + "_r = []")
+                            out.append(pad + "for _f in [%s]:" % ", ".join(self.member(m) for m in e[1]))
+                            out.append(pad + "    _r.append(await _f)")
+                        else:
+                            out.append(pad + "_r = {}")
+                            out.append(pad + "for _k, _f in [%s]:" % ", ".join("(%r, %s)" % ("k%d" % j, self.member(m))
+                                                                                 for j, m in enumerate(e[1])))
+                            out.append(pad + "    _r[_k] = await _f")
+                        out.append(pad + "x = _r")
+                        out.append(pad + "emit(('got', repr(x)))")
+                        continue
                 out.append(pad + "x = %s %s" % (kw, self.expr(e, style)))
                 out.append(pad + "emit(('got', repr(x)))")
             elif k == "return":
@@ -241,8 +273,9 @@ class Render:
         self.body(stmts, style, 1, False, is_main or style == "gen", maxsub)
         out.append("")
 
-    def source(self, main_style):
+    def source(self, main_style, sequential=False):
         self.lines = []
+        self.sequential = sequential
         for k, sub in enumerate(self.prog["subs"]):
             self.func("sub%d" % k, sub["body"], "gen" if sub["kind"] == "decorated" else "native", False, k,
                       force_gen=bool(sub.get("force_gen")))
@@ -300,6 +333,13 @@ async def _scenario(src, nf, sched, style):
     return trace, final, fast, caller_reads
 
 
+def _has_parallel_subs(prog):
+    def par(s):
+        return s[0] == "await" and s[1][0] in ("list", "dict") and any(m[0] == "sub" for m in s[1][1])
+
+    return any(_count(b, par) for b in [prog["main"]] + [x["body"] for x in prog["subs"]])
+
+
 def _count(stmts, pred):
     n = 0
     for s in stmts:
@@ -321,6 +361,12 @@ def run_case(ctx, case):
     r = Render(prog)
     src_gen = r.source("gen")
     src_nat = r.source("native")
+    # no await of a list/dict with sub-coroutine members anywhere => the program is one sequential flow and the order of
+    # its emits does not depend on timing; then the generator form is also compared with the reference rendering that
+    # awaits the members of every list/dict one after the other (ignoring *when* things happen, i.e. the step markers)
+    src_ref = None if _has_parallel_subs(prog) else r.source("native", sequential=True)
+    if src_ref == src_nat:
+        src_ref = None
     scheds = list(case["scheds"])
     if case.get("all_perms") and nf:
         base = scheds[0]
@@ -335,7 +381,8 @@ def run_case(ctx, case):
             continue
         seen.add(key)
         res = {}
-        for style, src in (("gen", src_gen), ("native", src_nat)):
+        multilogs = {}
+        for style, src in (("gen", src_gen), ("native", src_nat)) + ((("ref", src_ref),) if src_ref else ()):
             with Logs() as logs:
                 try:
                     res[style] = vtime.run(_scenario, src, nf, sched, style)
@@ -344,6 +391,7 @@ def run_case(ctx, case):
                     ctx.fail("C37.value_raised_as_exception", {"style": style, "exc": repr(e), "src": src, "sched": sched})
                     res[style] = ([("escaped", repr(e))], ("escaped", repr(e)), False, {})
                 bad = [x for x in logs.records if x[1] >= 40 and x[2].startswith("Exception in callback")]
+                multilogs[style] = sum(1 for x in logs.records if x[2].startswith("Multiple exceptions in yield list"))
             if bad:
                 ctx.fail("C37.internal_error_logged", {"style": style, "records": [(x[0], x[2][:200], repr(x[4])) for x in bad[:3]],
                                                         "src": src, "sched": sched})
@@ -356,6 +404,22 @@ def run_case(ctx, case):
         if tg != tn:
             k = next((i for i in range(min(len(tg), len(tn))) if tg[i] != tn[i]), min(len(tg), len(tn)))
             ctx.fail("C37.trace_differs", dict(detail, first_diff=k, gen_trace=repr(tg), native_trace=repr(tn)))
+        if src_ref and "ref" in res:
+            tr, fr = res["ref"][0], res["ref"][1]
+            proj = lambda t: [e for e in t if e[0] != "step"]  # noqa: E731
+            if fr != fg or proj(tr) != proj(tg):
+                ctx.fail("C37.differs_from_sequential_awaits", dict(detail, ref_src=src_ref, gen_final=repr(fg), ref_final=repr(fr),
+                                                                   gen_trace=repr(proj(tg)), ref_trace=repr(proj(tr))))
+            labels.add("sequential_reference")
+        # "If any children raise exceptions, multi() will raise the first one. All others will be logged"
+        waits = [e[1] for e in tg if e[0] == "multi"]
+        if waits and all(w is not None for w in waits):
+            want_logs = sum(max(0, sum(1 for i in w if sched["out"][i][0] == "e") - 1) for w in waits)
+            for style in ("gen", "native"):
+                if multilogs.get(style) != want_logs:
+                    ctx.fail("C37.multi_other_failures_logging", dict(detail, style=style, logged=multilogs.get(style), want=want_logs))
+            if want_logs:
+                labels.add("multi_several_failures")
         for t in (tg, tn):
             ent = [e for e in t if e[0] == "enter" and e[1] == "main"]
             if not ent or ent[0][2] != "caller":
@@ -372,6 +436,19 @@ def run_case(ctx, case):
                                                                       resets=resets, want_resets=list(case["expect_reset"]), trace=repr(t)))
         if "expect_ctx" in case:
             labels.add("ctx_family")
+        if "expect_multi_error" in case:
+            # absolute: the failure delivered is that of the first failing child in list / dict order
+            labels.add("multi_family")
+            name, args = case["expect_multi_error"]
+            for style, t, f in (("gen", tg, fg), ("native", tn, fn_)):
+                if case["caught"]:
+                    got = [(e[1], tuple(e[2])) for e in t if e[0] == "caught"]
+                    ok = got == [(name, tuple(args))]
+                else:
+                    got = f
+                    ok = f == ("exc", name, tuple(args))
+                if not ok:
+                    ctx.fail("C37.multi_wrong_child_exception", dict(detail, style=style, got=repr(got), want=repr((name, args))))
         # labels from what really happened in the decorated form
         if fastg:
             labels.add("fast_path_no_yield")
@@ -577,10 +654,32 @@ def ctx_family():
                                "expect_ctx": reads, "expect_reset": resets}
 
 
-PARTS = {"main": run_case, "ctxfam": run_case}
+def multi_family():
+    """yield [f...] / {k: f} with >= 2 failing children, the children resolved in every order; bare and inside try/except."""
+    E = {"r": ("r", 1), "A": ("e", "A"), "B": ("e", "B")}
+    for n in (2, 3):
+        for vec in itertools.product("rAB", repeat=n):
+            if sum(1 for v in vec if v != "r") < 2:
+                continue
+            for perm in itertools.permutations(range(n)):
+                for form in ("list", "dict"):
+                    for wrap in ((False, True) if n == 2 else (perm[0] % 2 == 0,)):
+                        aw = ("await", (form, [("fut", i) for i in range(n)]))
+                        body = [aw, ("emitx",)]
+                        if wrap:
+                            body = [("try", body, [("A", [("emit", 1)]), ("B", [("emit", 2)])], None, [("emit", 3)])]
+                        prog = {"nf": n, "subs": [], "main": body + [("return", "x")], "force_gen": False}
+                        sched = {"out": [E[v] for v in vec], "pre": [False] * n, "steps": [[i] for i in perm]}
+                        first = next(i for i, v in enumerate(vec) if v != "r")
+                        yield {"prog": prog, "scheds": [sched], "all_perms": False,
+                               "expect_multi_error": ("Err" + vec[first], ("F%d" % first,)), "caught": wrap}
+
+
+PARTS = {"main": run_case, "ctxfam": run_case, "multifam": run_case}
 
 
 def main(ctx):
     ctx.run_replays(PARTS)
     ctx.enumerate(ctx_family(), run_case, name="ctxfam")
+    ctx.enumerate(multi_family(), run_case, name="multifam")
     ctx.explore(case_s(ctx.thorough), run_case, ctx.n(500, 20000), name="main")
